@@ -188,6 +188,8 @@ impl Global {
         atomic::fence(Ordering::SeqCst);
 
         let epoch = self.epoch.load(Ordering::Relaxed);
+        #[cfg(feature = "circ_verif")]
+        crate::verif::ev(crate::verif::kind::BAG_SEALED, epoch.value(), bag.0.len(), 0);
         self.queue.push(bag.seal(epoch), guard);
     }
 
@@ -246,6 +248,8 @@ impl Global {
                     // A concurrent thread stalled this iteration. That thread might also try to
                     // advance the epoch, in which case we leave the job to it. Otherwise, the
                     // epoch will not be advanced.
+                    #[cfg(feature = "circ_verif")]
+                    crate::verif::ev(crate::verif::kind::ADVANCE_REFUSED, 1, 0, 0);
                     return global_epoch;
                 }
                 Ok(local) => {
@@ -254,6 +258,8 @@ impl Global {
                     // If the participant was pinned in a different epoch, we cannot advance the
                     // global epoch just yet.
                     if local_epoch.is_pinned() && local_epoch.unpinned() != global_epoch {
+                        #[cfg(feature = "circ_verif")]
+                        crate::verif::ev(crate::verif::kind::ADVANCE_REFUSED, 0, 0, 0);
                         return global_epoch;
                     }
                 }
@@ -270,6 +276,8 @@ impl Global {
         // advanced two steps ahead of it.
         let new_epoch = global_epoch.successor();
         self.epoch.store(new_epoch, Ordering::Release);
+        #[cfg(feature = "circ_verif")]
+        crate::verif::ev(crate::verif::kind::ADVANCED, new_epoch.value(), 0, 0);
         new_epoch
     }
 }
@@ -332,6 +340,8 @@ impl Local {
                 epoch: CachePadded::new(AtomicEpoch::new(Epoch::starting())),
             });
             collector.global.locals.insert(local, &unprotected());
+            #[cfg(feature = "circ_verif")]
+            crate::verif::ev(crate::verif::kind::REGISTERED, local.as_raw() as usize, 0, 0);
             LocalHandle {
                 local: local.as_raw(),
             }
@@ -455,8 +465,12 @@ impl Local {
                 if new_epoch.value() == self.global().epoch.load(Ordering::Acquire).value() {
                     break new_epoch;
                 }
+                #[cfg(feature = "circ_verif")]
+                crate::verif::ev(crate::verif::kind::PIN_RETRY, self as *const Local as usize, 0, 0);
                 self.epoch.store(Epoch::starting(), Ordering::Release);
             };
+            #[cfg(feature = "circ_verif")]
+            crate::verif::ev(crate::verif::kind::PINNED, self as *const Local as usize, new_epoch.value(), 0);
 
             // Reset the advance couter if epoch has advanced.
             if new_epoch != self.prev_epoch.get() {
@@ -472,6 +486,8 @@ impl Local {
     #[inline]
     pub(crate) fn unpin(&self) {
         let guard_count = self.guard_count.get();
+        #[cfg(feature = "circ_verif")]
+        crate::verif::ev(crate::verif::kind::UNPIN_ENTER, self as *const Local as usize, guard_count, 0);
         if guard_count == 1 && !self.collecting.get() {
             self.collecting.set(true);
             while self.must_collect.get() {
@@ -514,6 +530,8 @@ impl Local {
         if epoch != global_epoch {
             // We store the new epoch with `Release` because we need to ensure any memory
             // accesses from the previous epoch do not leak into the new one.
+            #[cfg(feature = "circ_verif")]
+            crate::verif::ev(crate::verif::kind::REPINNED, self as *const Local as usize, global_epoch.value(), 0);
             self.epoch.store(global_epoch, Ordering::Release);
         }
         global_epoch
@@ -545,6 +563,8 @@ impl Local {
     fn finalize(&self) {
         debug_assert_eq!(self.guard_count.get(), 0);
         debug_assert_eq!(self.handle_count.get(), 0);
+        #[cfg(feature = "circ_verif")]
+        crate::verif::ev(crate::verif::kind::FINALIZE, self as *const Local as usize, unsafe { !(*self.bag.get()).is_empty() } as usize, 0);
 
         // Temporarily increment handle count. This is required so that the following call to `pin`
         // doesn't call `finalize` again.
